@@ -201,6 +201,24 @@ func run(c *vk.Ctx, can *rig.Canary, sc scen, idx int) {
 		defer func() { sc.pattern = "second-message-then-silence" }()
 	}
 	switch sc.pattern {
+	case "silence-after-peer-logout":
+		// the peer logs out (the session answers) and then says nothing more on the open connection: it is probed and
+		// disconnected like any silent peer
+		time.Sleep(T / 10)
+		before := len(frames())
+		l.Conn.Feed(l.Peer.Logout())
+		lastIn = time.Now()
+		l.WaitFrames(2*time.Second, func(fs []rig.Frame) bool { return len(rig.Since(fs, since)) > before })
+		sc.pattern = "total-silence"
+		defer func() { sc.pattern = "silence-after-peer-logout" }()
+	case "silence-after-own-unanswered-logout":
+		// the application logs out, the peer never answers and stays silent
+		time.Sleep(T / 10)
+		go func() { _ = l.S.Logout() }()
+		sc.pattern = "total-silence"
+		defer func() { sc.pattern = "silence-after-own-unanswered-logout" }()
+	}
+	switch sc.pattern {
 	case "total-silence":
 		tr, ok := awaitTestRequest(lastIn, 0)
 		if overloaded() {
@@ -383,7 +401,7 @@ func run(c *vk.Ctx, can *rig.Canary, sc scen, idx int) {
 
 func main() {
 	c := vk.Init("C09")
-	c.Rule("full-stack sessions, both roles, N in {1,2} (quick) + {5,20,40} (thorough; N=40 exercises the N/20 branch), T = N + max(1,N/20); inbound patterns: total silence; total silence while the message store refuses the first TestRequest (the probe cannot leave; the disconnect after two periods is still due); a second message T/20 after the Logon and then silence (measured from that message); silence ending 0.3 s before the deadline; a message (Heartbeat / application / unknown type / TestRequest; also Heartbeats numbered 0 or -5 and an application message without MsgSeqNum) arriving 2%, 10%, 50%, 85% into the second period; steady traffic with period 0.95 N for 12 periods (also after the application removed two incoming observers it had registered before the logon); plus sessions that log on a second time on the same connection after a Logout exchange (acceptor: first interval 1 then 2, 2 then 1, 1 then 1; initiator: same interval), observed from the second logon with the patterns total silence / answer at 50% / steady traffic. Oracle: silence => TestRequest within T + T/10 + slack of the last inbound message (and not before T), then EventDisconnect, OnStopped/OnDisconnect, net.Conn.Close (and Serve return) within T + T/10 + slack of the TestRequest (and not before T); an inbound message of any type in the second period finds the session connected, buys another period, and renewed silence is probed again with a second TestRequest before any disconnect; live peers see no TestRequest and no disconnect. slack = 100 ms + 3 x measured scheduler oversleep. distinct = (role, N, pattern, answer type); non-trivial = a timer expiry or a cancelled expiry was observed")
+	c.Rule("full-stack sessions, both roles, N in {1,2} (quick) + {5,20,40} (thorough; N=40 exercises the N/20 branch), T = N + max(1,N/20); inbound patterns: total silence; total silence after a Logout exchange started by the peer, and after a Logout of the application that the peer never answers (connection open, peer silent: probed and disconnected all the same); total silence while the message store refuses the first TestRequest (the probe cannot leave; the disconnect after two periods is still due); a second message T/20 after the Logon and then silence (measured from that message); silence ending 0.3 s before the deadline; a message (Heartbeat / application / unknown type / TestRequest; also Heartbeats numbered 0 or -5 and an application message without MsgSeqNum) arriving 2%, 10%, 50%, 85% into the second period; steady traffic with period 0.95 N for 12 periods (also after the application removed two incoming observers it had registered before the logon); plus sessions that log on a second time on the same connection after a Logout exchange (acceptor: first interval 1 then 2, 2 then 1, 1 then 1; initiator: same interval), observed from the second logon with the patterns total silence / answer at 50% / steady traffic. Oracle: silence => TestRequest within T + T/10 + slack of the last inbound message (and not before T), then EventDisconnect, OnStopped/OnDisconnect, net.Conn.Close (and Serve return) within T + T/10 + slack of the TestRequest (and not before T); an inbound message of any type in the second period finds the session connected, buys another period, and renewed silence is probed again with a second TestRequest before any disconnect; live peers see no TestRequest and no disconnect. slack = 100 ms + 3 x measured scheduler oversleep. distinct = (role, N, pattern, answer type); non-trivial = a timer expiry or a cancelled expiry was observed")
 	c.Assume("reference instant of an inbound message = the moment it was handed to the scripted connection (the library's Read returns it within microseconds)")
 	can := rig.StartCanary()
 	defer can.Stop()
@@ -423,6 +441,15 @@ func main() {
 			}
 			for _, p := range pats {
 				scs = append(scs, scen{role, 1, p, a, 0})
+			}
+		}
+	}
+	// silence around a Logout: the connection stays open, the peer says nothing more
+	for _, role := range []rig.Role{rig.Acceptor, rig.Initiator} {
+		for _, p := range []string{"silence-after-peer-logout", "silence-after-own-unanswered-logout"} {
+			scs = append(scs, scen{role, 1, p, "heartbeat", 0})
+			if c.Thorough() {
+				scs = append(scs, scen{role, 2, p, "heartbeat", 0})
 			}
 		}
 	}
